@@ -379,7 +379,24 @@ def _next_of(eng, st, it):
         if not isinstance(idx, int):
             raise SymError("enumerate with symbolic index")
         return it.with_(inner=ni, idx=idx + 1), c, VStruct([bv(idx, 64), v])
-    raise SymError("Iterator::next on iterator kind " + k + " (filters are only supported through collect/count/any/sum)")
+    if k == "list":
+        items, pos = a["items"], a["pos"]
+        if pos >= len(items):
+            return it, z3.BoolVal(False), None
+        return it.with_(pos=pos + 1), z3.BoolVal(True), items[pos]
+    if k in ("skip", "take", "rev", "filter", "filter_map"):
+        # materialise: allowed when every presence condition is concrete (e.g. skip/take/rev over containers of concrete length)
+        items = []
+        for c, v in drain(eng, st, it):
+            if z3.is_true(c):
+                items.append(v)
+            elif z3.is_false(c):
+                continue
+            else:
+                raise SymError("Iterator::next on a " + k + " adaptor whose elements are conditionally present (only supported through collect/count/any/sum)")
+        lst = VIter("list", items=tuple(items), pos=0)
+        return _next_of(eng, st, lst)
+    raise SymError("Iterator::next on iterator kind " + k)
 
 
 @summary(r"^<std::ops::Range<.*> as Iterator>::next$|^core::iter::range::<impl Iterator for (std::ops::)?Range<.*>>::next$", "Range::next")
@@ -533,3 +550,60 @@ def _sort_by(eng, st, args, dty, callee, m):
 
     _sort_seq(eng, st, args[0], greater)
     return UNIT
+
+
+@summary(r"^Vec::<.*>::retain::<.*>$", "Vec::retain (real closure; kept elements packed in order)")
+def _retain(eng, st, args, dty, callee, m):
+    v, r = _seq_of(eng, st, args[0])
+    ln = _len_of(v)
+    items = []
+    for i, e in enumerate(v.elems):
+        c = simp(z3.ULT(bv(i, 64), ln))
+        if z3.is_false(c):
+            break
+        ref = VRef(r.root, r.path + (("i", i),), True)
+        keep = _call(eng, st, args[1], [ref], c)
+        if keep is None:
+            continue
+        items.append((simp(z3.And(c, keep)), e))
+    packed = compact(items)
+    # keep the modelled capacity
+    elems = list(packed.elems) + list(v.elems[len(packed.elems):])
+    eng.store(st, r, VSeq(elems, packed.len))
+    return UNIT
+
+
+@summary(r"^<.* as Iterator>::position::<.*>$", "Iterator::position (real closure; index of the first match)")
+def _position(eng, st, args, dty, callee, m):
+    itref = args[0]
+    it = _it(eng, st, itref)
+    items = drain(eng, st, it)
+    found = z3.BoolVal(False)
+    idx = bv(0, 64)
+    cnt = bv(0, 64)
+    for c, v in items:
+        r = _call(eng, st, args[1], [v], c)
+        if r is None:
+            continue
+        hit = simp(z3.And(c, r, z3.Not(found)))
+        idx = z3.If(hit, cnt, idx)
+        found = simp(z3.Or(found, z3.And(c, r)))
+        cnt = simp(cnt + z3.If(c, bv(1, 64), bv(0, 64)))
+    return option(found, simp(idx))
+
+
+@summary(r"^Vec::<.*>::remove$", "Vec::remove(i): later elements shift down (index check is an obligation)")
+def _vec_remove(eng, st, args, dty, callee, m):
+    v, r = _seq_of(eng, st, args[0])
+    i = args[1]
+    eng.oblige(st, "panic:Vec::remove index out of bounds", z3.UGE(i, v.len))
+    n = len(v.elems)
+    if n == 0:
+        return None
+    removed = eng.read_path(v, (("si", i),)) if as_int(i) is None else v.elems[min(as_int(i), n - 1)]
+    new = []
+    for j in range(n):
+        nxt = v.elems[j + 1] if j + 1 < n else v.elems[j]
+        new.append(merge(z3.ULT(bv(j, 64), i), v.elems[j], nxt))
+    eng.store(st, r, VSeq(new, simp(v.len - 1)))
+    return removed
